@@ -5,6 +5,8 @@ package main
 
 import (
 	"fmt"
+	"runtime"
+	"runtime/debug"
 	"go/ast"
 	"go/constant"
 	"go/token"
@@ -276,6 +278,21 @@ func (u *Unit) explore(st *State) {
 					msg += fmt.Sprintf(" [at %s in %s: %s]", u.eng.ld.posText(in.Pos()), st.frame.fn.Name(), in.String())
 				}
 				u.errs = append(u.errs, msg)
+				return
+			}
+			if re, ok := r.(runtime.Error); ok {
+				stack := string(debug.Stack())
+				lines := strings.Split(stack, "\n")
+				var keep []string
+				for _, l := range lines {
+					if strings.Contains(l, "/verif/govc/") && !strings.Contains(l, "exec.go:2") && !strings.Contains(l, "exec.go:3") {
+						keep = append(keep, strings.TrimSpace(l))
+					}
+					if len(keep) >= 8 {
+						break
+					}
+				}
+				u.errs = append(u.errs, "internal error: "+re.Error()+" @ "+strings.Join(keep, " <- "))
 				return
 			}
 			panic(r)
@@ -1480,6 +1497,13 @@ func (u *Unit) checkPost(st *State, res []Value, pos token.Pos) {
 	if u.spec == nil {
 		return
 	}
+	// ghost assignments performed at return (before the postconditions are checked)
+	for _, gs := range u.spec.GhostSets {
+		env := st.newEnv(fr, res)
+		env.post = true
+		st.ghostAssign(env, gs[0], gs[1])
+		st.assumeAll(env.defs)
+	}
 	for _, c := range u.spec.Ensures {
 		env := st.newEnv(fr, res)
 		env.post = true
@@ -1498,3 +1522,39 @@ func (u *Unit) checkPost(st *State, res []Value, pos token.Pos) {
 }
 
 var _ = ast.NewIdent
+
+// ghostAssign: target is x.f with f a ghost field, or a ghost variable
+func (st *State) ghostAssign(env *Env, target, value *Expr) {
+	e := st.eng()
+	v := env.eval(value)
+	switch target.Kind {
+	case ESel:
+		base := env.eval(target.Args[0])
+		pt, ok := types.Unalias(base.T).Underlying().(*types.Pointer)
+		if !ok {
+			panic(specErr("ghostset %s: base is not a pointer", target))
+		}
+		ref, _ := st.tryPtrTerm(base)
+		hn := env.ghostFieldDecl(pt.Elem(), target.Op)
+		if hn == "" {
+			panic(specErr("ghostset %s: not a ghost field", target))
+		}
+		env.ghostField(pt.Elem(), target.Op, ref) // declares the heap
+		sort := e.heapSorts[hn]
+		h := st.heapGet(hn, sort)
+		st.heapSet(hn, sort, Store(h, ref, v.Tm))
+		return
+	case EIdent:
+		if g := env.ghostVar(target.Op); g != nil {
+			pk := ""
+			if env.pkg != nil {
+				pk = env.pkg.Name()
+			}
+			gd := e.specs.Ghosts[pk+"."+target.Op]
+			hn := "GH_" + sanitize(gd.PkgName+"_"+gd.Name)
+			st.heapSet(hn, g.Tm.Sort, v.Tm)
+			return
+		}
+	}
+	panic(specErr("unsupported ghostset target %s", target))
+}
